@@ -118,6 +118,19 @@ def run_impl(case, d):
                 shutil.rmtree("/tmp" + shared, ignore_errors=True)
                 after2 = observe(r2)
                 res["second_graph"] = True
+                # ... and two graphs saved under names that differ only after a dot: each archive must restore to its own graph
+                obs1 = observe(g)
+                z_a = g.save(os.path.join(d, "cp_graph.first"))
+                z_b = g2.save(os.path.join(d, "cp_graph.second"))
+                r_a = restore_cpgraph(z_a, ta.t, res["rank"])
+                shutil.rmtree("/tmp" + os.path.join(d, "cp_graph.first"), ignore_errors=True)
+                shutil.rmtree("/tmp" + os.path.join(d, "cp_graph"), ignore_errors=True)
+                after_a = observe(r_a)
+                for key in obs1:
+                    if obs1[key] != after_a[key]:
+                        diffs.append(f"first of two graphs saved as cp_graph.first / cp_graph.second (archives {os.path.basename(z_a)}, {os.path.basename(z_b)}): "
+                                     f"{key} differs after restoring the first archive: {str(obs1[key])[:140]} vs {str(after_a[key])[:140]}")
+                        break
                 for key in before2:
                     if before2[key] != after2[key]:
                         diffs.append(f"second graph (window {ann2!r}) saved into a directory already holding the first: {key} differs after restore: "
